@@ -492,6 +492,19 @@ def symmetry_rules(prog, P, R):
             nzero += 1
             key = "%s@%s" % (fk, o.line)
             R.instance("R2.7", key)
+            # a path that assumes both `a == b` false and `a != b` false
+            # (or both true) for the same operands cannot be taken
+            eqs = {}
+            infeasible = False
+            for c, pol in [g for g in o.facts if g[0] != "case"]:
+                if c.get("k") in ("bin", "op") and c.get("op") in (
+                        "==", "!=") and len(c.get("a", ())) == 2:
+                    k2 = frozenset((show(c["a"][0]), show(c["a"][1])))
+                    equal = (c["op"] == "==") == bool(pol)
+                    if eqs.setdefault(k2, equal) != equal:
+                        infeasible = True
+            if infeasible:
+                continue
             for c, pol in [g for g in o.facts if g[0] != "case"]:
                 if c.get("k") not in ("bin", "op") \
                         or c.get("op") not in RELOPS \
